@@ -5,6 +5,7 @@ scalars are symbolic, (2) states the property against an independent reference w
 (3) asks z3 (and cvc5 as second opinion) for a counter-model of `assumptions /\\ path /\\ not(claim /\\ exactness
 side-conditions)`; unsat on every path = holds within the bound; sat = counterexample (returned as a concrete case for
 native replay); (4) keeps a reachability witness per obligation (the interesting outcome must be satisfiable)."""
+import re
 import time
 
 import z3
@@ -3246,5 +3247,413 @@ def ob_time_aware_new(ctx, n):
         res.witnesses = int(saw_ok) + int(saw_err)
         if not (saw_ok and saw_err):
             res.status, res.detail = 'inconclusive', f'vacuous: ok={saw_ok} err={saw_err}'
+    res.time = time.time() - t0
+    return res
+
+
+# ---------------------------------------------------------------------------------------------------------------------
+# C14 (registry half): vehicle bookkeeping from an arbitrary state
+
+def ob_registry_step(ctx, groups):
+    """C14 (vehicle registry): `Registry::use_actor`, `free_actor`, `available`, `next`, `deep_copy` (real MIR) from an
+    ARBITRARY bookkeeping state: the actors are fixed objects (groups as given), which of them are currently available is
+    one symbolic Bool each, so every subset is covered by one execution (hash containers: association lists; sets with
+    symbolic membership).  use_actor(a) answers 'was available' and makes a unavailable; a second use_actor(a) answers
+    false (never handed out twice); free_actor(a) answers 'was in use' and makes a available; no other actor changes;
+    `available()` yields exactly the available actors, each once; `next()` yields one available actor of each group that
+    has one, for every answer of the random source; a deep copy has the same content and later changes of the copy do not
+    touch the original."""
+    from symex import AMapV, ASetV, DynV
+    n_groups = len(groups)
+    name = f'registry_step[groups={"+".join(map(str, groups))}]'
+    res = Result(name)
+    res.bounds = f'{sum(groups)} actors in {n_groups} group(s) of sizes {groups}; availability of every actor symbolic; every actor as argument; random source: any integer in range'
+    t0 = time.time()
+    F = {m: ctx.prog.find_method('Registry', m) for m in ('use_actor', 'free_actor', 'available', 'next', 'deep_copy', 'deep_slice')}
+    if any(len(v) != 1 for v in F.values()):
+        raise Inconclusive('Registry methods not found')
+    # the filter closure of the one production caller of deep_slice (decompose search): |actor| actors.contains(actor)
+    slice_filter = [f for n, f in ctx.prog.functions.items() if n.startswith('create_partial_insertion_ctx::{closure#') and
+                    re.search(r'_2: &(?:\w+::)*Actor\) -> bool', f.header)]
+    if len(slice_filter) != 1:
+        raise Inconclusive('the deep_slice filter closure of create_partial_insertion_ctx was not found')
+    slice_filter_text = re.search(r'\{closure@[^}]*\}', slice_filter[0].header).group(0)
+    total = sum(groups)
+
+    class Env(drivers.Env):
+        symbolic_maps = True
+
+        def dyn_call(self, engine, st, trait, method, args, dest_ty):
+            if trait == 'Random' and method == 'uniform_int':
+                lo, hi = args[1], args[2]
+                self.n_rand = getattr(self, 'n_rand', 0) + 1
+                v = z3.Int(f'random_{self.n_rand}')
+                st.assumed.append(z3.And(v >= lo.t, v <= hi.t))
+                # the value is used as a skip count: make it concrete per path
+                # (any answer the requested range admits, also beyond the number of actors: infeasible ones are pruned)
+                return IV(engine.choose(st, [(v == i, i) for i in range(0, total + 2)]), 'i32')
+            return super().dyn_call(engine, st, trait, method, args, dest_ty)
+
+    def build(env):
+        actors, avail = [], []
+        gid_of = []
+        for g, size in enumerate(groups):
+            for i in range(size):
+                actors.append(ArcV(Cell(Opaque(f'actor{g}_{i}'))))
+                avail.append(z3.Bool(f'available_{g}_{i}'))
+                gid_of.append(g)
+        sets = []
+        for g in range(n_groups):
+            idx = [i for i in range(total) if gid_of[i] == g]
+            sets.append(ASetV([actors[i] for i in idx], [avail[i] for i in idx]))
+        registry = env.struct('registry::Registry', available=AMapV([(IV(g), sets[g]) for g in range(n_groups)]),
+                              index=AMapV([(actors[i], IV(gid_of[i])) for i in range(total)]), all=VecV(list(actors)), random=ArcV(Cell(DynV('random'))))
+        return registry, actors, avail, gid_of
+
+    def membership(env, registry):
+        """availability term of every actor cell in the registry value (absent actor: false)."""
+        out = {}
+        for _, sv in env.field(registry, 'registry::Registry', 'available').entries:
+            if isinstance(sv, ASetV):
+                for k, p in zip(sv.keys, sv.present):
+                    out[id(k.cell)] = p
+            elif isinstance(sv, AMapV):
+                for k, _ in sv.entries:
+                    out[id(deref_all(k).cell)] = z3.BoolVal(True)
+            else:
+                raise Inconclusive(f'unexpected set value {sv!r}')
+        return out
+
+    for target in range(total):
+        for op in ('use', 'free', 'use-twice', 'query', 'copy', 'slice'):
+            if op in ('query', 'copy') and target != 0:
+                continue
+            env = Env(ctx.prog, ctx.layout, 8)
+            eng = symex.Engine(ctx.prog, ctx.layout, env)
+            holder = {}
+
+            def body(st, env=env, eng=eng, holder=holder, op=op, target=target):
+                env.assumptions.clear()
+                env.n_rand = 0
+                registry, actors, avail, gid_of = build(env)
+                holder.update(actors=actors, avail=avail, gid_of=gid_of)
+                cell = Cell(registry)
+                a = actors[target]
+                if op == 'use':
+                    r = eng.exec_fn(st, F['use_actor'][0], [RefV(cell, 0, True), RefV(a.cell, 0)])
+                    return ('use', r, cell.v, (actors, avail, gid_of))
+                if op == 'free':
+                    r = eng.exec_fn(st, F['free_actor'][0], [RefV(cell, 0, True), RefV(Cell(a), 0)])
+                    return ('free', r, cell.v, (actors, avail, gid_of))
+                if op == 'use-twice':
+                    r1 = eng.exec_fn(st, F['use_actor'][0], [RefV(cell, 0, True), RefV(a.cell, 0)])
+                    r2 = eng.exec_fn(st, F['use_actor'][0], [RefV(cell, 0, True), RefV(a.cell, 0)])
+                    return ('use-twice', (r1, r2), cell.v, (actors, avail, gid_of))
+                if op == 'query':
+                    av = eng.exec_fn(st, F['available'][0], [RefV(cell, 0)])
+                    nx = eng.exec_fn(st, F['next'][0], [RefV(cell, 0)])
+                    from models import as_iter
+                    return ('query', (list(as_iter(av).items), list(as_iter(nx).items)), cell.v, (actors, avail, gid_of))
+                if op == 'slice':
+                    keep = [z3.Bool(f'keep_{i}') for i in range(total)]
+                    keep_set = ASetV(list(actors), keep)
+                    flt = Agg('closure', [RefV(Cell(keep_set), 0)], slice_filter_text, fn_name=slice_filter_text)
+                    sl = eng.exec_fn(st, F['deep_slice'][0], [RefV(cell, 0), flt])
+                    slc = Cell(sl)
+                    r = eng.exec_fn(st, F['use_actor'][0], [RefV(slc, 0, True), RefV(a.cell, 0)])
+                    return ('slice', (r, slc.v, keep), cell.v, (actors, avail, gid_of))
+                cp = eng.exec_fn(st, F['deep_copy'][0], [RefV(cell, 0)])
+                cpc = Cell(cp)
+                r = eng.exec_fn(st, F['use_actor'][0], [RefV(cpc, 0, True), RefV(a.cell, 0)])
+                return ('copy', (r, cpc.v), cell.v, (actors, avail, gid_of))
+
+            paths = eng.explore(body, max_paths=4000)
+            res.paths += len(paths)
+            res.functions |= eng.functions_used
+            for st, out in paths:
+                if out is None:
+                    if not no_panic(ctx, res, env, st, what=name):
+                        break
+                    continue
+                kind, r, reg, (actors, avail, gid_of) = out
+                post = membership(env, reg)
+                after = [post[id(a.cell)] for a in actors]
+                others = [after[i] == avail[i] for i in range(total) if i != target]
+                if kind == 'use':
+                    claim = z3.And(r.t == avail[target], z3.Not(after[target]), *others)
+                elif kind == 'free':
+                    claim = z3.And(r.t == z3.Not(avail[target]), after[target], *others)
+                elif kind == 'use-twice':
+                    claim = z3.And(r[0].t == avail[target], z3.Not(r[1].t), z3.Not(after[target]), *others)
+                elif kind == 'query':
+                    av, nx = r
+                    cells = lambda items: [deref_all(x).cell if isinstance(deref_all(x), ArcV) else None for x in items]
+                    avc, nxc = cells(av), cells(nx)
+                    conds = [after[i] == avail[i] for i in range(total)]
+                    # available(): exactly the available actors, each once (the iteration split the path on every flag)
+                    for i, a in enumerate(actors):
+                        cnt = sum(1 for c in avc if c is a.cell)
+                        conds.append(z3.If(avail[i], cnt == 1, cnt == 0))
+                    # next(): one available actor per group that has one
+                    for g in range(n_groups):
+                        members = [i for i in range(total) if gid_of[i] == g]
+                        picked = [c for c in nxc if any(c is actors[i].cell for i in members)]
+                        conds.append(z3.If(z3.Or(*[avail[i] for i in members]), len(picked) == 1, len(picked) == 0))
+                        for c in picked:
+                            i = next(i for i in members if actors[i].cell is c)
+                            conds.append(avail[i])
+                    claim = z3.And(*conds)
+                elif kind == 'slice':
+                    used_in_slice, sl, keep = r
+                    slm = membership(env, sl)
+                    conds = [after[i] == avail[i] for i in range(total)]
+                    conds.append(used_in_slice.t == z3.And(avail[target], keep[target]))
+                    for i, a in enumerate(actors):
+                        inside = slm.get(id(a.cell), z3.BoolVal(False))
+                        conds.append(inside == (z3.And(avail[i], keep[i]) if i != target else z3.BoolVal(False)))
+                    # the slice knows exactly the kept actors (all / index), in fleet order
+                    all_cells = [deref_all(x).cell for x in env.field(sl, 'registry::Registry', 'all').items]
+                    idx_cells = [deref_all(k).cell for k, _ in env.field(sl, 'registry::Registry', 'index').entries]
+                    for i, a in enumerate(actors):
+                        conds.append(z3.If(keep[i], sum(1 for c in all_cells if c is a.cell) == 1, sum(1 for c in all_cells if c is a.cell) == 0))
+                        conds.append(z3.If(keep[i], sum(1 for c in idx_cells if c is a.cell) == 1, sum(1 for c in idx_cells if c is a.cell) == 0))
+                    claim = z3.And(*[c if z3.is_expr(c) else z3.BoolVal(bool(c)) for c in conds])
+                else:
+                    used_in_copy, cp = r
+                    cpm = membership(env, cp)
+                    claim = z3.And(used_in_copy.t == avail[target], z3.Not(cpm[id(actors[target].cell)]), *[after[i] == avail[i] for i in range(total)])
+                if not decide_claim(ctx, res, env, st, claim, what=f'{name}: {kind} on actor {target}'):
+                    if res.status == 'violated' and res.model is not None:
+                        m = res.model
+                        ids = [f'v{gid_of[i]}_{sum(1 for j in range(i) if gid_of[j] == gid_of[i])}' for i in range(total)]
+                        res.case = {'kind': 'registry', 'groups': list(groups), 'op': kind, 'target': ids[target],
+                                    'in_use': [ids[i] for i in range(total) if not z3.is_true(m.eval(avail[i], model_completion=True))]}
+                        if kind == 'slice':
+                            res.case['keep'] = [ids[i] for i in range(total) if z3.is_true(m.eval(r[2][i], model_completion=True))]
+                    break
+                if not no_panic(ctx, res, env, st, what=name):
+                    break
+                res.witnesses += 1
+            if res.status != 'holds':
+                break
+        if res.status != 'holds':
+            break
+    if res.status == 'holds' and res.witnesses == 0:
+        res.status, res.detail = 'inconclusive', 'vacuous'
+    res.time = time.time() - t0
+    return res
+
+
+def ob_registry_ctx_step(ctx, groups):
+    """C14 (vehicle registry as the heuristics use it): `RegistryContext::get_route`, `use_route`, `free_route`, `next_route`,
+    `deep_copy`, `deep_slice` (real MIR, on top of the real Registry) from an ARBITRARY availability state (one symbolic Bool
+    per actor).  get_route(a) hands out a route exactly when a is available - a deep copy of a's empty prototype, for that
+    actor - and a second request answers None (never twice); use_route / free_route answer and change availability like
+    use_actor / free_actor; next_route yields the prototype of one available actor per group; a deep copy / deep slice is
+    independent of the original and a slice serves exactly the kept actors."""
+    from symex import AMapV, ASetV, DynV
+    n_groups = len(groups)
+    name = f'registry_ctx_step[groups={"+".join(map(str, groups))}]'
+    res = Result(name)
+    res.bounds = (f'{sum(groups)} actors in {n_groups} group(s) of sizes {groups}, each with an empty prototype route (open/closed alternating); '
+                  'availability of every actor symbolic; every actor as argument; random source: any integer in range')
+    t0 = time.time()
+    names = ('get_route', 'use_route', 'free_route', 'next_route', 'deep_copy', 'deep_slice')
+    F = {m: [f for f in ctx.prog.find_method('RegistryContext', m)] for m in names}
+    if any(len(v) != 1 for v in F.values()):
+        raise Inconclusive('RegistryContext methods not found: ' + ', '.join(m for m in names if len(F[m]) != 1))
+    slice_filter = [f for n, f in ctx.prog.functions.items() if n.startswith('create_partial_insertion_ctx::{closure#') and
+                    re.search(r'_2: &(?:\w+::)*Actor\) -> bool', f.header)]
+    if len(slice_filter) != 1:
+        raise Inconclusive('the deep_slice filter closure of create_partial_insertion_ctx was not found')
+    slice_filter_text = re.search(r'\{closure@[^}]*\}', slice_filter[0].header).group(0)
+    total = sum(groups)
+
+    class Env(drivers.Env):
+        symbolic_maps = True
+
+        def dyn_call(self, engine, st, trait, method, args, dest_ty):
+            if trait == 'Random' and method == 'uniform_int':
+                lo, hi = args[1], args[2]
+                self.n_rand = getattr(self, 'n_rand', 0) + 1
+                v = z3.Int(f'random_{self.n_rand}')
+                st.assumed.append(z3.And(v >= lo.t, v <= hi.t))
+                return IV(engine.choose(st, [(v == i, i) for i in range(0, total + 2)]), 'i32')
+            return super().dyn_call(engine, st, trait, method, args, dest_ty)
+
+    def build(env):
+        actors, avail, gid_of, protos = [], [], [], []
+        for g, size in enumerate(groups):
+            for i in range(size):
+                rc = TourSpec(env, 0, closed=(len(actors) % 2 == 0), prefix=f'p{g}_{i}_').build()
+                route = env.field(rc, 'context::RouteContext', 'route')
+                actor = env.field(route, 'route::Route', 'actor')
+                if not isinstance(actor, ArcV):
+                    raise Inconclusive('actor of the prototype route is not an Arc value')
+                actors.append(actor)
+                protos.append(ArcV(Cell(rc)))
+                avail.append(z3.Bool(f'available_{g}_{i}'))
+                gid_of.append(g)
+        sets = []
+        for g in range(n_groups):
+            idx = [i for i in range(total) if gid_of[i] == g]
+            sets.append(ASetV([actors[i] for i in idx], [avail[i] for i in idx]))
+        registry = env.struct('registry::Registry', available=AMapV([(IV(g), sets[g]) for g in range(n_groups)]),
+                              index=AMapV([(actors[i], IV(gid_of[i])) for i in range(total)]), all=VecV(list(actors)), random=ArcV(Cell(DynV('random'))))
+        rctx = env.struct('context::RegistryContext', registry=registry, index=AMapV([(actors[i], protos[i]) for i in range(total)]))
+        return rctx, actors, avail, gid_of, protos
+
+    def membership(env, rctx):
+        out = {}
+        registry = env.field(rctx, 'context::RegistryContext', 'registry')
+        for _, sv in env.field(registry, 'registry::Registry', 'available').entries:
+            if isinstance(sv, ASetV):
+                for k, p in zip(sv.keys, sv.present):
+                    out[id(k.cell)] = p
+            elif isinstance(sv, AMapV):
+                for k, _ in sv.entries:
+                    out[id(deref_all(k).cell)] = z3.BoolVal(True)
+            else:
+                raise Inconclusive(f'unexpected set value {sv!r}')
+        return out
+
+    def actor_cell_of(env, rc):
+        route = env.field(deref_all(rc), 'context::RouteContext', 'route')
+        a = env.field(route, 'route::Route', 'actor')
+        return deref_all(a).cell if isinstance(deref_all(a), ArcV) else None
+
+    for target in range(total):
+        for op in ('get_route', 'get-twice', 'use_route', 'free_route', 'next_route', 'copy', 'slice'):
+            if op in ('next_route', 'copy') and target != 0:
+                continue
+            env = Env(ctx.prog, ctx.layout, 8)
+            eng = symex.Engine(ctx.prog, ctx.layout, env)
+
+            def body(st, env=env, eng=eng, op=op, target=target):
+                env.assumptions.clear()
+                env.n_rand = 0
+                rctx, actors, avail, gid_of, protos = build(env)
+                cell = Cell(rctx)
+                a = actors[target]
+                extra = (actors, avail, gid_of, protos)
+                if op == 'get_route':
+                    r = eng.exec_fn(st, F['get_route'][0], [RefV(cell, 0, True), RefV(Cell(a), 0)])
+                    return (op, r, cell.v, extra)
+                if op == 'get-twice':
+                    r1 = eng.exec_fn(st, F['get_route'][0], [RefV(cell, 0, True), RefV(Cell(a), 0)])
+                    r2 = eng.exec_fn(st, F['get_route'][0], [RefV(cell, 0, True), RefV(Cell(a), 0)])
+                    return (op, (r1, r2), cell.v, extra)
+                if op == 'use_route':
+                    r = eng.exec_fn(st, F['use_route'][0], [RefV(cell, 0, True), RefV(protos[target].cell, 0)])
+                    return (op, r, cell.v, extra)
+                if op == 'free_route':
+                    # the route handed back is an own copy of the prototype (as get_route produced it earlier)
+                    dc = ctx.prog.find_method('RouteContext', 'deep_copy')[0]
+                    own = eng.exec_fn(st, dc, [RefV(protos[target].cell, 0)])
+                    r = eng.exec_fn(st, F['free_route'][0], [RefV(cell, 0, True), own])
+                    return (op, r, cell.v, extra)
+                if op == 'next_route':
+                    from models import as_iter
+                    nx = eng.exec_fn(st, F['next_route'][0], [RefV(cell, 0)])
+                    return (op, list(as_iter(nx).items), cell.v, extra)
+                if op == 'slice':
+                    keep = [z3.Bool(f'keep_{i}') for i in range(total)]
+                    keep_set = ASetV(list(actors), keep)
+                    flt = Agg('closure', [RefV(Cell(keep_set), 0)], slice_filter_text, fn_name=slice_filter_text)
+                    sl = eng.exec_fn(st, F['deep_slice'][0], [RefV(cell, 0), flt])
+                    slc = Cell(sl)
+                    r = eng.exec_fn(st, F['get_route'][0], [RefV(slc, 0, True), RefV(Cell(a), 0)])
+                    return (op, (r, slc.v, keep), cell.v, extra)
+                cp = eng.exec_fn(st, F['deep_copy'][0], [RefV(cell, 0)])
+                cpc = Cell(cp)
+                r = eng.exec_fn(st, F['get_route'][0], [RefV(cpc, 0, True), RefV(Cell(a), 0)])
+                return (op, (r, cpc.v), cell.v, extra)
+
+            paths = eng.explore(body, max_paths=6000)
+            res.paths += len(paths)
+            res.functions |= eng.functions_used
+            for st, out in paths:
+                if out is None:
+                    if not no_panic(ctx, res, env, st, what=name):
+                        break
+                    continue
+                kind, r, reg, (actors, avail, gid_of, protos) = out
+                post = membership(env, reg)
+                after = [post[id(a.cell)] for a in actors]
+                others = [after[i] == avail[i] for i in range(total) if i != target]
+                same = [after[i] == avail[i] for i in range(total)]
+                # the prototypes stay in the index of the original, untouched
+                idx_now = env.field(reg, 'context::RegistryContext', 'index').entries
+                structural = len(idx_now) == total and all(deref_all(v).cell is protos[i].cell for i, (_, v) in enumerate(idx_now))
+
+                def handed_out(opt, i):
+                    """conditions for `opt` = Some(route for actor i, an own deep copy of the prototype)."""
+                    rc = opt.payload[1][0]
+                    ok = actor_cell_of(env, rc) is actors[i].cell
+                    proto_acts = env.tour_activities(protos[i].cell.v)
+                    own_acts = env.tour_activities(deref_all(rc))
+                    ok = ok and len(proto_acts) == len(own_acts) and not any(x is y for x, y in zip(proto_acts, own_acts))
+                    return ok
+
+                conds = []
+                if kind == 'get_route':
+                    conds = [(r.discr == 1) == avail[target], z3.Not(after[target])] + others
+                    if 1 in r.payload:
+                        conds.append(z3.Implies(r.discr == 1, z3.BoolVal(handed_out(r, target))))
+                elif kind == 'get-twice':
+                    conds = [(r[0].discr == 1) == avail[target], r[1].discr == 0, z3.Not(after[target])] + others
+                elif kind == 'use_route':
+                    conds = [r.t == avail[target], z3.Not(after[target])] + others
+                elif kind == 'free_route':
+                    conds = [r.t == z3.Not(avail[target]), after[target]] + others
+                elif kind == 'next_route':
+                    cells = [actor_cell_of(env, x) for x in r]
+                    conds = list(same)
+                    for g in range(n_groups):
+                        members = [i for i in range(total) if gid_of[i] == g]
+                        picked = [c for c in cells if any(c is actors[i].cell for i in members)]
+                        conds.append(z3.If(z3.Or(*[avail[i] for i in members]), z3.BoolVal(len(picked) == 1), z3.BoolVal(len(picked) == 0)))
+                        for c in picked:
+                            conds.append(avail[next(i for i in members if actors[i].cell is c)])
+                    # the yielded routes are the prototypes themselves
+                    conds.append(z3.BoolVal(all(any(deref_all(x) is p.cell.v for p in protos) for x in r)))
+                elif kind == 'slice':
+                    got, sl, keep = r
+                    slm = membership(env, sl)
+                    conds = list(same)
+                    conds.append((got.discr == 1) == z3.And(avail[target], keep[target]))
+                    if 1 in got.payload:
+                        conds.append(z3.Implies(got.discr == 1, z3.BoolVal(handed_out(got, target))))
+                    for i, a in enumerate(actors):
+                        inside = slm.get(id(a.cell), z3.BoolVal(False))
+                        conds.append(inside == (z3.And(avail[i], keep[i]) if i != target else z3.BoolVal(False)))
+                    idx_cells = [deref_all(k).cell for k, _ in env.field(sl, 'context::RegistryContext', 'index').entries]
+                    for i, a in enumerate(actors):
+                        n = sum(1 for c in idx_cells if c is a.cell)
+                        conds.append(z3.If(keep[i], z3.BoolVal(n == 1), z3.BoolVal(n == 0)))
+                else:
+                    got, cp = r
+                    cpm = membership(env, cp)
+                    conds = [(got.discr == 1) == avail[target], z3.Not(cpm[id(actors[target].cell)])] + same
+                    conds += [cpm[id(actors[i].cell)] == avail[i] for i in range(total) if i != target]
+                claim = z3.And(z3.BoolVal(structural), *conds)
+                if not decide_claim(ctx, res, env, st, claim, what=f'{name}: {kind} on actor {target}'):
+                    if res.status == 'violated' and res.model is not None:
+                        m = res.model
+                        ids = [f'v{gid_of[i]}_{sum(1 for j in range(i) if gid_of[j] == gid_of[i])}' for i in range(total)]
+                        res.case = {'kind': 'registry', 'level': 'context', 'groups': list(groups), 'op': kind, 'target': ids[target],
+                                    'in_use': [ids[i] for i in range(total) if not z3.is_true(m.eval(avail[i], model_completion=True))]}
+                        if kind == 'slice':
+                            res.case['keep'] = [ids[i] for i in range(total) if z3.is_true(m.eval(r[2][i], model_completion=True))]
+                    break
+                if not no_panic(ctx, res, env, st, what=name):
+                    break
+                res.witnesses += 1
+            if res.status != 'holds':
+                break
+        if res.status != 'holds':
+            break
+    if res.status == 'holds' and res.witnesses == 0:
+        res.status, res.detail = 'inconclusive', 'vacuous'
     res.time = time.time() - t0
     return res
